@@ -441,5 +441,6 @@ def bad_undeclared_carried(xs):
 M.contract(P + ':bad_undeclared_carried', params=dict(xs=ListOf(Int)), returns=Bool, cover=False, raises_only=(),
            ensures={'never-false': lambda result: result is True})
 M.loop(P + ':bad_undeclared_carried', 0, invariant=lambda _i, xs: True, modifies=dict(x='local'))
-# the undeclared name is unbound at the loop head: the read fails on that path, nothing is proved about it
-EXPECTED_REFUTED.add(P + ':bad_undeclared_carried : raises_only()')
+# the undeclared name is unbound at the loop head: the read is a limit of the verifier (unsupported), nothing is
+# proved about the function
+EXPECTED_UNDECIDED = [P + ':bad_undeclared_carried: unsupported: the loop carries a value in']
